@@ -308,11 +308,16 @@ class SSHSession(Session):
         elif self._host_keys:
             # Else set preferred host keys to those we possess for the host
             # (avoids situation where known_hosts contains a valid key for the host, but that key type is not selected during negotiation)
-            known_host_keys_for_this_host = self._host_keys.lookup(host) or {}
+            # Only the key type names are collected: lookup() returns a live view
+            # of the entries, and updating one view from the other would overwrite
+            # the keys listed under the host with those listed under [host]:port
             host_port = '[%s]:%s' % (host, port)
-            known_host_keys_for_this_host.update(self._host_keys.lookup(host_port) or {})
-            if known_host_keys_for_this_host:
-                self._transport._preferred_keys = list(known_host_keys_for_this_host)
+            known_host_key_types = list(self._host_keys.lookup(host) or {})
+            for key_type in (self._host_keys.lookup(host_port) or {}):
+                if key_type not in known_host_key_types:
+                    known_host_key_types.append(key_type)
+            if known_host_key_types:
+                self._transport._preferred_keys = known_host_key_types
 
         # Connect
         try:
